@@ -1325,3 +1325,438 @@ class CheckDimensions(_DF):
 
     def raises(self, cx, exc):
         cx.prove("rejects-only-different-lengths", exc.exc == "ValueError" and cx.case == "different")
+
+
+# =========================================================================================
+# C05: joins
+# =========================================================================================
+def derived_frame(it, base, r, names_same=True):
+    """Frame consisting of rows r (an INT Seq of row positions) of the frame described by `base` (a sym dict):
+    same columns/names/kinds, new buffers.  This is what the contracts of the row-subsetting methods promise."""
+    ctx = it.ctx
+    DF, DFC = df_classes(it)
+    elem0 = base["elem"]
+    elem = lambda c, j: elem0(c, r.at(j))
+    nrow = r.len
+
+    def col(cc):
+        return NDArr(ctx, Seq(nrow, lambda j, cc=cc: elem(cc, j), V), base["kind"](cc), owner="fresh", cls=DFC)
+    fam0 = base["family"]
+    fam = Family.__new__(Family)
+    fam.n, fam.key_at, fam.pos, fam.val_at = fam0.n, fam0.key_at, fam0.pos, col
+    obj = Instance(ctx, DF, base=OMap([fam]))
+    obj.attrs["_group_colnames"] = ()
+    obj.sym = {"ncol": base["ncol"], "nrow": nrow, "name_at": base["name_at"], "elem": elem, "kind": base["kind"],
+               "family": fam, "name": "derived", "rows": r, "parent": base}
+    return obj
+
+
+def frame_sym(obj):
+    if not hasattr(obj, "sym"):
+        raise Unsupported("callee contract applied to a frame of unknown shape")
+    return obj.sym
+
+
+def drop_na_contract(it, args, kwargs):
+    """Callee contract of DataFrame.drop_na (proved under C02): rows without a missing value in the named columns."""
+    obj, names = args[0], args[1:]
+    sym = frame_sym(obj)
+    ctx = it.ctx
+    ps = []
+    for nm in names:
+        kv = M.to_v(it, nm)
+        if not ctx.branch(sym["family"].has(kv)):
+            raise PyRaise("KeyError", str(nm))
+        ps.append(sym["family"].pos(kv))
+    keep = lambda i: z3.Not(z3.Or(*[na_formula(it, sym["kind"](p), sym["elem"](p, i)) for p in ps])) if ps else z3.BoolVal(True)
+    e = Enum.of(ctx, sym["nrow"], keep)
+    r = Seq(e.cnt, lambda j: e.idx(j), INT)
+    out = derived_frame(it, sym, r)
+    out.sym["enum"], out.sym["keep"] = e, keep
+    it.__dict__.setdefault("callee_log", []).append(("drop_na", out.sym))
+    return out
+
+
+def key_val(it, sym, p, i):
+    e = sym["elem"](p, i)
+    return z3.If(na_formula(it, sym["kind"](p), e), NONE, e)
+
+
+def unique_contract(it, args, kwargs):
+    """Callee contract of DataFrame.unique (proved under C02) plus the representative lemma (UniqueRepresentative):
+    the first row of every key combination, in order; every input row has a kept row with the same key at or before it."""
+    obj, names = args[0], args[1:]
+    sym = frame_sym(obj)
+    ctx = it.ctx
+    ps = []
+    for nm in names:
+        kv = M.to_v(it, nm)
+        if not ctx.branch(sym["family"].has(kv)):
+            raise PyRaise("KeyError", str(nm))
+        ps.append(sym["family"].pos(kv))
+    q = z3.Int("q!uc")
+    same = lambda a, b: z3.And(*[key_val(it, sym, p, a) == key_val(it, sym, p, b) for p in ps])
+    first = lambda i: z3.Not(z3.Exists([q], z3.And(0 <= q, q < i, same(q, i))))
+    e = Enum.of(ctx, sym["nrow"], first)
+    r = Seq(e.cnt, lambda j: e.idx(j), INT)
+    out = derived_frame(it, sym, r)
+    out.sym["enum"], out.sym["first"], out.sym["same"] = e, first, same
+    # representative lemma: rep(i) <= i is a first-occurrence row with the key of row i
+    rep = ctx.fresh_fn("rep", INT, INT)
+    i = z3.Int("i!rep")
+    ctx.assumptions.append(z3.ForAll([i], z3.Implies(in_range(i, sym["nrow"]), z3.And(
+        0 <= rep(i), rep(i) <= i, first(rep(i)), same(rep(i), i))), patterns=[rep(i)]))
+    out.sym["rep"] = rep
+    it.__dict__.setdefault("callee_log", []).append(("unique", out.sym))
+    return out
+
+
+@register
+class UniqueRepresentative(_DF):
+    """Lemma (strong induction over the row index, step discharged by the solver): for every row i there is a
+    first-occurrence row rep(i) <= i with the same key.  rep is defined by well-founded recursion:
+    rep(i) = i if i is a first occurrence, else rep(w(i)) where w(i) < i is an earlier row with the same key."""
+    qualname, prop, variant = "DataFrame.unique", "C05", "lemma:every-row-has-a-kept-representative"
+    also = ("C04",)
+    lemma_only = True
+
+    def setup(self, cx):
+        self_ = sym_frame(cx, "self")
+        typed_elements(cx, self_)
+        p = named_column(cx, self_, "k1")
+        return {"self": self_, "args": ["k1"], "p": p}
+
+    def ensures(self, cx, result):
+        ctx, it = cx.ctx, cx.it
+        self_ = cx.inputs["self"]
+        sym, p = self_.sym, cx.inputs["p"]
+        q = z3.Int("q!ur")
+        same = lambda a, b: key_val(it, sym, p, a) == key_val(it, sym, p, b)
+        first = lambda i: z3.Not(z3.Exists([q], z3.And(0 <= q, q < i, same(q, i))))
+        rep = ctx.fresh_fn("rep", INT, INT)
+        w = ctx.fresh_fn("w", INT, INT)
+        i = ctx.fresh("i", INT)
+        n = sym["nrow"]
+        # definitions (conservative: w is a skolem witness of "not first", rep recurses on a smaller index)
+        x = z3.Int("x!ur")
+        ctx.assumptions.append(z3.ForAll([x], z3.Implies(z3.And(in_range(x, n), z3.Not(first(x))),
+                                                         z3.And(0 <= w(x), w(x) < x, same(w(x), x))), patterns=[w(x)]))
+        ctx.assumptions.append(z3.ForAll([x], rep(x) == z3.If(first(x), x, rep(w(x))), patterns=[rep(x)]))
+        claim = lambda t: z3.And(0 <= rep(t), rep(t) <= t, first(rep(t)), same(rep(t), t))
+        ih = z3.ForAll([x], z3.Implies(z3.And(0 <= x, x < i), claim(x)), patterns=[rep(x)])
+        cx.prove("lemma:induction-step", z3.Implies(z3.And(in_range(i, n), ih), claim(i)))
+
+
+JOIN_CALLEES = dict(DF_CALLEES)
+JOIN_CALLEES.update({"DataFrame.drop_na": drop_na_contract, "DataFrame.unique": unique_contract})
+
+
+class _Join(_DF):
+    prop = "C05"
+    callees = JOIN_CALLEES
+    keys = (("k1", "k1"),)        # (left name, right name) per key column
+
+    def setup(self, cx):
+        self_ = sym_frame(cx, "self")
+        other = sym_frame(cx, "other")
+        typed_elements(cx, self_)
+        typed_elements(cx, other)
+        p1 = [named_column(cx, self_, l) for l, r in self.keys]
+        p2 = [named_column(cx, other, r) for l, r in self.keys]
+        by = [l if l == r else (l, r) for l, r in self.keys]
+        return {"self": self_, "args": [other] + by, "other": other, "p1": p1, "p2": p2}
+
+    def match_terms(self, cx):
+        it = cx.it
+        A, B = cx.inputs["self"].sym, cx.inputs["other"].sym
+        p1, p2 = cx.inputs["p1"], cx.inputs["p2"]
+        okB = lambda j: z3.And(*[z3.Not(na_formula(it, B["kind"](p), B["elem"](p, j))) for p in p2])
+        # equality of key tuples: value equality of the (numpy scalar) elements, component-wise
+        keyeq = lambda i, j: z3.And(*[A["elem"](a, i) == B["elem"](b, j) for a, b in zip(p1, p2)])
+        log = dict(cx.it.__dict__.get("callee_log", []))
+        im = cx.it.__dict__.get("last_index_map")
+        return okB, keyeq, log, im
+
+    def analysis(self, cx):
+        """matched(i), w(i): whether left row i finds a partner and which row of the ORIGINAL right frame it is
+        (read off the callee results and the lookup table the code built)."""
+        ctx = cx.ctx
+        A = cx.inputs["self"].sym
+        okB, keyeq, log, im = self.match_terms(cx)
+        ok = "unique" in log and "drop_na" in log and im is not None
+        cx.prove("ghost:callee-results-available", ok)
+        if not ok:
+            return None
+        U, Dn = log["unique"], log["drop_na"]
+        rU, rD = U["rows"], Dn["rows"]
+
+        def key_of(i):
+            return M.mk_tuple(ctx, [A["elem"](p, i) for p in cx.inputs["p1"]])
+        matched = lambda i: im.has(key_of(i))
+        w = lambda i: rD.at(rU.at(im.lookup(key_of(i))))
+        return matched, w
+
+    def first_match_clauses(self, cx, i, w, matched, what):
+        """w is the FIRST right row with an equal, non-missing key; without a match there is no such row."""
+        ctx = cx.ctx
+        B = cx.inputs["other"].sym
+        okB, keyeq, log, im = self.match_terms(cx)
+        j = ctx.fresh("j", INT)
+        cx.prove(f"{what}:matched row is a right row with equal non-missing key",
+                 z3.Implies(matched, z3.And(in_range(w, B["nrow"]), okB(w), keyeq(i, w))))
+        cx.prove(f"{what}:it is the first such row",
+                 z3.Implies(z3.And(matched, 0 <= j, j < w), z3.Not(z3.And(okB(j), keyeq(i, j)))))
+        # chain of lemmas for the unmatched case: a right row j with usable key survives drop_na (at rank t), has a
+        # representative kept by unique (at rank u), whose key is in the lookup table
+        U, Dn = log["unique"], log["drop_na"]
+        hyp = z3.And(in_range(j, B["nrow"]), okB(j), keyeq(i, j))
+        t = Dn["enum"].rk(j)
+        cx.prove(f"{what}:lemma:row j survives drop_na", z3.Implies(hyp, z3.And(in_range(t, Dn["enum"].cnt), Dn["enum"].idx(t) == j)))
+        rp = U["rep"](t)
+        u = U["enum"].rk(rp)
+        cx.prove(f"{what}:lemma:its representative is kept by unique",
+                 z3.Implies(hyp, z3.And(in_range(rp, Dn["enum"].cnt), in_range(u, U["enum"].cnt), U["enum"].idx(u) == rp)))
+        cx.prove(f"{what}:lemma:the representative has the key of row j",
+                 z3.Implies(hyp, z3.And(*[U["elem"](p, u) == B["elem"](p, j) for p in cx.inputs["p2"]])))
+        cx.prove(f"{what}:lemma:that key is in the lookup table", z3.Implies(hyp, im.has(im.key(u))))
+        cx.prove(f"{what}:unmatched means no right row has an equal non-missing key",
+                 z3.Implies(z3.And(z3.Not(matched), in_range(j, B["nrow"])), z3.Not(z3.And(okB(j), keyeq(i, j)))))
+
+
+@register
+class LeftJoin1(_Join):
+    """left_join(other, key): every left row once, in order, own columns unchanged; each new column holds the value of
+    the first right row with an equal non-missing key, else the missing value of a dtype able to hold it."""
+    qualname, variant = "DataFrame.left_join", "one same-named key"
+
+    def ensures(self, cx, result):
+        ctx, it = cx.ctx, cx.it
+        self_, other = cx.inputs["self"], cx.inputs["other"]
+        A, B = self_.sym, other.sym
+        cx.prove("result-is-DataFrame", is_frame(result))
+        an = self.analysis(cx)
+        if an is None:
+            return
+        matched_f, w_f = an
+        n, name_at, col_at = flat(cx, result)
+        knames = [M.to_v(it, r) for l, r in self.keys]
+        extra = lambda c: z3.And(*[B["name_at"](c) != k for k in knames], z3.Not(A["family"].has(B["name_at"](c))))
+        e = Enum.of(ctx, B["ncol"], extra)
+        cx.prove("number-of-columns", zint(n) == A["ncol"] + e.cnt)
+        c, i = ctx.fresh("c", INT), ctx.fresh("i", INT)
+        snap = ctx.snapshot()
+        ctx.assume(in_range(c, A["ncol"]))
+        cx.prove("left-columns:names-in-order", name_at(c) == A["name_at"](c))
+        col_same(cx, col_at(c), self_, c, "left column")
+        ctx.restore(snap)
+        matched, w = matched_f(i), w_f(i)
+        ctx.assume(in_range(i, A["nrow"]))
+        self.first_match_clauses(cx, i, w, matched, "match")
+        ctx.assume(in_range(c, e.cnt))
+        oc = e.idx(c)
+        col = col_at(A["ncol"] + c)
+        cx.prove("right-columns:names-in-order", name_at(A["ncol"] + c) == B["name_at"](oc))
+        cx.prove("right-columns:length = left nrow", zint(col.len) == zint(A["nrow"]))
+        cx.prove("right-columns:value of the first matching right row, else missing",
+                 M.to_v(it, col.seq.at(i)) == z3.If(matched, B["elem"](oc, w), na_value_term(it, B["kind"](oc))))
+        cx.prove("right-columns:dtype able to hold the missing value", kind_term(col.kind) == na_kind_term(B["kind"](oc)))
+        cx.prove("fresh:right-columns:new-buffer", col.freshness())
+        ctx.restore(snap)
+        common_frame_clauses(cx, result, self_)
+
+
+@register
+class LeftJoinRenamed(LeftJoin1):
+    variant, keys = "one key named differently on the two sides", (("k1", "k2"),)
+
+
+@register
+class LeftJoin2(LeftJoin1):
+    variant, keys = "two keys", (("k1", "k1"), ("k2", "k2"))
+
+
+class _SubsetJoin(_Join):
+    """joins whose result consists of a subset of the left rows"""
+    keep_matched = True
+    with_right = False
+
+    def ensures(self, cx, result):
+        ctx, it = cx.ctx, cx.it
+        self_, other = cx.inputs["self"], cx.inputs["other"]
+        A, B = self_.sym, other.sym
+        cx.prove("result-is-DataFrame", is_frame(result))
+        an = self.analysis(cx)
+        if an is None:
+            return
+        matched_f, w_f = an
+        knames = [M.to_v(it, rr) for l, rr in self.keys]
+        extra = lambda c: z3.And(*[B["name_at"](c) != k for k in knames], z3.Not(A["family"].has(B["name_at"](c))))
+        ee = Enum.of(ctx, B["ncol"], extra) if self.with_right else None
+        sel = (lambda i: matched_f(i)) if self.keep_matched else (lambda i: z3.Not(matched_f(i)))
+        e = Enum.of(ctx, A["nrow"], sel)
+        r = Seq(e.cnt, lambda j: e.idx(j), INT)
+        i = ctx.fresh("i", INT)
+        snap = ctx.snapshot()
+        ctx.assume(in_range(i, A["nrow"]))
+        self.first_match_clauses(cx, i, w_f(i), matched_f(i), "match")
+        ctx.restore(snap)
+        enumerates(cx, r, A["nrow"], sel, "kept-left-rows")
+        if not self.with_right:
+            rows_of(cx, result, self_, r)
+            return
+        n, name_at, col_at = flat(cx, result)
+        cx.prove("number-of-columns", zint(n) == A["ncol"] + ee.cnt)
+        c, j = ctx.fresh("c", INT), ctx.fresh("j", INT)
+        ctx.assume(in_range(c, A["ncol"]))
+        cx.prove("left-columns:names-in-order", name_at(c) == A["name_at"](c))
+        col = col_at(c)
+        cx.prove("left-columns:length", zint(col.len) == e.cnt)
+        cx.prove("left-columns:values of the kept left rows", z3.Implies(in_range(j, e.cnt), M.to_v(it, col.seq.at(j)) == A["elem"](c, e.idx(j))))
+        cx.prove("fresh:left-columns:new-buffer", col.freshness())
+        ctx.restore(snap)
+        ctx.assume(in_range(c, ee.cnt))
+        oc = ee.idx(c)
+        col = col_at(A["ncol"] + c)
+        cx.prove("right-columns:names-in-order", name_at(A["ncol"] + c) == B["name_at"](oc))
+        cx.prove("right-columns:length", zint(col.len) == e.cnt)
+        cx.prove("right-columns:value of the first matching right row",
+                 z3.Implies(in_range(j, e.cnt), M.to_v(it, col.seq.at(j)) == B["elem"](oc, w_f(e.idx(j)))))
+        cx.prove("fresh:right-columns:new-buffer", col.freshness())
+        ctx.restore(snap)
+        common_frame_clauses(cx, result, self_)
+
+
+@register
+class InnerJoin1(_SubsetJoin):
+    """inner_join = the matched subset of left_join (same rows, same order, same partner rows)"""
+    qualname, variant, with_right = "DataFrame.inner_join", "one same-named key", True
+
+
+@register
+class SemiJoin1(_SubsetJoin):
+    qualname, variant = "DataFrame.semi_join", "one same-named key"
+
+
+@register
+class AntiJoin1(_SubsetJoin):
+    qualname, variant, keep_matched = "DataFrame.anti_join", "one same-named key", False
+
+
+@register
+class SemiJoinRenamed(_SubsetJoin):
+    qualname, variant, keys = "DataFrame.semi_join", "key named differently", (("k1", "k2"),)
+
+
+@register
+class AntiJoin2(_SubsetJoin):
+    qualname, variant, keep_matched, keys = "DataFrame.anti_join", "two keys", False, (("k1", "k1"), ("k2", "k2"))
+
+
+@register
+class RenameSwapDF(_DF):
+    """rename(k2="k1", k1="k2"): a permutation of existing names - positions and values unchanged, names swapped"""
+    qualname, prop, variant = "DataFrame.rename", "C09", "swap of two names"
+    also = ("C01", "C06")
+
+    def setup(self, cx):
+        self_ = sym_frame(cx, "self")
+        p1, p2 = named_column(cx, self_, "k1"), named_column(cx, self_, "k2")
+        return {"self": self_, "kwargs": {"k2": "k1", "k1": "k2"}, "p1": p1, "p2": p2}
+
+    def ensures(self, cx, result):
+        ctx = cx.ctx
+        self_ = cx.inputs["self"]
+        sym = self_.sym
+        cx.prove("result-is-DataFrame", is_frame(result))
+        n, name_at, col_at = flat(cx, result)
+        c = ctx.fresh("c", INT)
+        cx.prove("number-of-columns", zint(n) == sym["ncol"])
+        ctx.assume(in_range(c, sym["ncol"]))
+        k1, k2 = M.to_v(cx.it, "k1"), M.to_v(cx.it, "k2")
+        cx.prove("names: the two names swapped in place, others kept",
+                 name_at(c) == z3.If(c == cx.inputs["p1"], k2, z3.If(c == cx.inputs["p2"], k1, sym["name_at"](c))))
+        col_same(cx, col_at(c), self_, c, "column")
+        common_frame_clauses(cx, result, self_)
+
+
+def make_cbind_inv2(holder):
+    def inv(S):
+        found = S.contents(S.var("found_colnames"))
+        fam, fam2 = holder["self"].sym["family"], holder["other"].sym["family"]
+        x, p = z3.Const("x!inv", V), z3.Int("p!inv")
+        names = S.coll
+        return z3.ForAll([x], found.mem(x) == z3.Or(fam.has(x), fam2.has(x),
+                                                    z3.Exists([p], z3.And(0 <= p, p < S.k, M.to_v(S.it, names.at(p)[0]) == x))))
+    return inv
+
+
+_cb2_holder = {}
+
+
+@register
+class CbindTwoDF(_DF):
+    """cbind(b, c): the first occurrence of every name wins, also between the two arguments"""
+    qualname, prop, variant = "DataFrame.cbind", "C09", "two other frames"
+    also = ("C01", "C06")
+    loops = {("DataFrame.cbind", 0): LoopSpec(cbind_inv0), ("DataFrame.cbind", 1): LoopSpec(make_cbind_inv1(_cb2_holder)),
+             ("DataFrame.cbind", 2): LoopSpec(make_cbind_inv2(_cb2_holder))}
+
+    def setup(self, cx):
+        self_ = sym_frame(cx, "self")
+        b = sym_frame(cx, "other", nrow=self_.sym["nrow"])
+        c = sym_frame(cx, "third", nrow=self_.sym["nrow"])
+        cx.assume(z3.And(self_.sym["ncol"] > 0, b.sym["ncol"] > 0, c.sym["ncol"] > 0))
+        _cb2_holder.update(self=self_, other=b)
+        return {"self": self_, "args": [b, c], "b": b, "c": c}
+
+    def ensures(self, cx, result):
+        ctx = cx.ctx
+        A, Bf, Cf = cx.inputs["self"], cx.inputs["b"], cx.inputs["c"]
+        a, b, c3 = A.sym, Bf.sym, Cf.sym
+        cx.prove("result-is-DataFrame", is_frame(result))
+        newb = lambda c: z3.Not(a["family"].has(b["name_at"](c)))
+        newc = lambda c: z3.And(z3.Not(a["family"].has(c3["name_at"](c))), z3.Not(b["family"].has(c3["name_at"](c))))
+        eb = Enum.of(ctx, b["ncol"], newb)
+        ec = Enum.of(ctx, c3["ncol"], newc)
+        n, name_at, col_at = flat(cx, result)
+        cx.prove("number-of-columns", zint(n) == a["ncol"] + eb.cnt + ec.cnt)
+        c = ctx.fresh("c", INT)
+        snap = ctx.snapshot()
+        ctx.assume(in_range(c, a["ncol"]))
+        cx.prove("receiver:names-in-order", name_at(c) == a["name_at"](c))
+        col_same(cx, col_at(c), A, c, "receiver column")
+        ctx.restore(snap)
+        ctx.assume(in_range(c, eb.cnt))
+        cx.prove("second:new-names-in-order", name_at(a["ncol"] + c) == b["name_at"](eb.idx(c)))
+        col_same(cx, col_at(a["ncol"] + c), Bf, eb.idx(c), "new column of the second frame")
+        ctx.restore(snap)
+        ctx.assume(in_range(c, ec.cnt))
+        cx.prove("third:new-names-in-order", name_at(a["ncol"] + eb.cnt + c) == c3["name_at"](ec.idx(c)))
+        col_same(cx, col_at(a["ncol"] + eb.cnt + c), Cf, ec.idx(c), "new column of the third frame")
+        ctx.restore(snap)
+        common_frame_clauses(cx, result, A)
+
+
+def _mk_set_2d(key):
+    class S2(_Proto):
+        """a two-dimensional array is never stored as a column"""
+        qualname, variant = "DataFrame.__setitem__", f"key {key!r}: two-dimensional DataFrameColumn value"
+
+        def setup(self, cx):
+            f = self.frame(cx)
+            v = other_vector(cx, "value", f.conc["nrow"], column=True)
+            v.ndim = 2
+            return {"self": f, "args": [key, v]}
+
+        def ensures(self, cx, result):
+            names, cols = wf_and_coherent(cx, cx.inputs["self"], "frame")
+
+        def raises(self, cx, exc):
+            cx.prove("only-ValueError", exc.exc == "ValueError")
+            wf_and_coherent(cx, cx.inputs["self"], "frame after the rejected assignment")
+    S2.__name__ = "Set2D_" + key
+    return register(S2)
+
+
+_mk_set_2d("a")
+_mk_set_2d("b")
